@@ -190,7 +190,8 @@ def plan(spec, model):
             if not any(model.get(f'{key}_{c}_{i}') for i in range(len(spec.masks))):
                 steps.append((HELPER, f'MODE {c} +{letter} tmp!*@*')); steps.append((HELPER, f'MODE {c} -{letter} tmp!*@*'))
         for letter in 'ahv':
-            steps.append((HELPER, f'MODE {c} +{letter} {HELPER}')); steps.append((HELPER, f'MODE {c} -{letter} {HELPER}'))
+            # ('?': a refusal of this step is tolerated - changed code may deny the helper the rank it needs for it)
+            steps.append((HELPER, f'?MODE {c} +{letter} {HELPER}')); steps.append((HELPER, f'?MODE {c} -{letter} {HELPER}'))
         for i, m in enumerate(spec.masks):
             if model.get(f'ban_{c}_{i}'): steps.append((HELPER, f'MODE {c} +b {m}'))
             if model.get(f'exc_{c}_{i}'): steps.append((HELPER, f'MODE {c} +e {m}'))
@@ -386,10 +387,11 @@ def replay_witness(run, prog, case, witness, release=False, probes=True):
             if not any(b' 001 ' in l for l in got):
                 return None, f'registration of {n} failed: {got[-3:]}'
         for n, line in setup:
-            clients[n].send(line)
+            optional = line.startswith('?')
+            clients[n].send(line.lstrip('?'))
             got = clients[n].barrier()
             bad = [l for l in got if re.match(rb':\S+ (4\d\d|9\d\d) ', l)]
-            if bad:
+            if bad and not optional:
                 return None, f'pre-state not reachable through the protocol: set-up step {line!r} by {n} is refused: {bad[0][:120]!r}'
         for n in nicks: clients[n].barrier()
         # the step and the probes
@@ -398,6 +400,12 @@ def replay_witness(run, prog, case, witness, release=False, probes=True):
             script = [(actor, line)] + ([(n, f'WHOIS {x}') for n in nicks[:1] for x in list(spec.nicks) + [ck.get('nick') or 'dave']] + [(nicks[0], 'LUSERS')] if probes and nicks else [])
         else:
             script = [(actor, line)] + (probes_for(spec, model, actor) if probes else [])
+        # commands the case runs before the step under test
+        pre = []
+        for ent in case.get('prelude', []) or []:
+            if isinstance(ent, (tuple, list)) and len(ent) == 2 and isinstance(ent[1], str) and ent[0] != 'call': pre.append((ent[0], ent[1]))
+            else: return None, 'this case has a set-up step that cannot be replayed over a socket: ' + repr(ent)[:80]
+        script = pre + script
         pred, outcomes = predict(prog, case, model, script)
         native = {n: [] for n in nicks}
         if unreg: native[UNREG] = []
